@@ -8,6 +8,7 @@ import c20_content as c20c
 FLAGS = ['--test-skip-device', '--test-skip-self', '--no-warnings', '--test-force-order-alpha']
 KEY_ZEROSUB = 'F-C20-status-zerosubsecond-raw'
 KEY_STDOUT = 'F-C20-stdout-newline'
+KEY_DIRFILE = 'F-C20-pool-dir-replaced-by-file'
 
 
 def tool(exe, tree, args, log=None):
@@ -436,7 +437,7 @@ def pool_walk(pool):
     return links, regs, dirs
 
 
-def verify_pool(cx, tree, step, walked, foreign, share=None, replay=None):
+def verify_pool(cx, tree, step, walked, foreign, share=None, replay=None, missing_key=None):
     rc, out, logb, err = tool(cx.exe, tree, ['pool'], 'pool.log')
     cx.last_pool_err = err + out
     if rc != 0:
@@ -476,7 +477,13 @@ def verify_pool(cx, tree, step, walked, foreign, share=None, replay=None):
             d = os.path.dirname(d)
     for d in dirs - need:
         probs.append('empty directory %r kept' % d)
-    if probs:
+    if probs and missing_key and all(p_.startswith('no link for') for p_ in probs):
+        # the one shape registered (or to be registered) as a known finding: a recorded file has no link after this run
+        cx.chk.violation('%s_%s' % (cx.name, step), 'pool after a recorded directory was replaced by a FILE of the same name (pool still holds the directory with the links of the previous run): '
+                         + '; '.join(probs[:4]) + " (symlink() hits the old pool directory: 'Duplicate pooling' warning; the stale links and the directory are removed only "
+                         'at the end of the run, so the file gets its link only at the NEXT pool run)',
+                         dict(replay or {}, problems=probs[:20], pool_stderr=cx.last_pool_err.decode('latin1')[-300:]), finding_key=missing_key)
+    elif probs:
         cx.bad(step, 'pool directory is not "one symlink per recorded file/link, stale ones and empty directories removed, foreign files kept": ' + '; '.join(probs[:4]),
                dict(replay or {}, problems=probs[:20], pool_stderr=cx.last_pool_err.decode('latin1')[-300:]))
     if len(cx.samples) < 12:
@@ -815,6 +822,7 @@ STALE_VARIANTS = [
     ('other_disk', 2, [(0, b'a', 'f'), (1, b'c', 'f')], [(0, b'a')], [(1, b'a/y', 'f')]),
     ('depth2', 1, [(0, b'a/b', 'f'), (0, b'a/keep', 'f')], [(0, b'a/b')], [(0, b'a/b/c', 'f'), (0, b'a/b/d\ne/f', 'f')]),
     ('link_to_dir', 2, [(0, b'c', 'f'), (0, b'l', 'l'), (1, b'k', 'f')], [(0, b'l')], [(0, b'l/f', 'f'), (1, b'l/g', 'f')]),
+    ('dir_to_file', 2, [(0, b'a/b', 'f'), (0, b'a/c/d', 'f'), (1, b'k', 'f')], [(0, b'a')], [(1, b'a', 'f')]),
     ('two_levels', 1, [(0, b'a', 'f'), (0, b'z', 'f')], [(0, b'a')], [(0, b'a/b/c/d', 'f'), (0, b'a/b2', 'f')]),
 ]
 
@@ -839,7 +847,10 @@ def scenario_pool_stale_dir(cx):
         walked = [(n, ) + walk_disk(d) for n, d in tree.disks]
         verify_pool(cx, tree, 'stale_%s_first' % name, walked, [])
         for di, sub in removed:
-            os.remove(tree.path(di, sub))
+            if os.path.isdir(tree.path(di, sub)) and not os.path.islink(tree.path(di, sub)):
+                shutil.rmtree(tree.path(di, sub))
+            else:
+                os.remove(tree.path(di, sub))
         for k, (di, sub, kind) in enumerate(gen2):
             tree.write(di, sub, bytes([97 + k]) * (700 + k), (now + 50 + k) * 10 ** 9 + 13 + k)
         rc, out, logb, err = tool(cx.exe, tree, ['sync'])
@@ -852,7 +863,7 @@ def scenario_pool_stale_dir(cx):
                   'steps': ['write ' + ', '.join('d%d/%s%s' % (di + 1, sub.decode('latin1'), ' (symlink)' if kd == 'l' else '') for di, sub, kd in gen1), 'sync', 'pool',
                             'remove ' + ', '.join('d%d/%s' % (di + 1, sub.decode('latin1')) for di, sub in removed),
                             'write ' + ', '.join('d%d/%s' % (di + 1, sub.decode('latin1')) for di, sub, kd in gen2), 'sync', 'pool']}
-        verify_pool(cx, tree, 'stale_%s_second' % name, walked, [], replay=recipe)
+        verify_pool(cx, tree, 'stale_%s_second' % name, walked, [], replay=recipe, missing_key=KEY_DIRFILE if name == 'dir_to_file' else None)
         after = snapshot_disks(tree)
         cx.evals += len(after)
         cx.kinds.add('pool_stale_dir')
@@ -867,8 +878,8 @@ def scenario_pool_stale_dir(cx):
                 return 'changed %s of %r' % ('/'.join(nm for nm, a, b in zip(names, before[p], after[p]) if a != b), os.path.relpath(p, os.fsencode(tree.root)))
             cx.chk.violation('pool_stale_%s_disk' % name, 'pool writes inside a data disk when a recorded %s was replaced by a directory of the same name (the pool link of the previous run is '
                              'followed): %s' % ('link' if name == 'link_to_dir' else 'file', '; '.join(descr(p) for p in changed[:4])), dict(recipe, changed=[descr(p) for p in changed[:20]]))
-        if b'Duplicate pooling' in cx.last_pool_err:
-            cx.chk.violation('pool_stale_%s_warn' % name, "pool warns 'Duplicate pooling' although every recorded path is unique: %s" % cx.last_pool_err.decode('latin1').strip()[-200:], recipe)
+        if b'Duplicate pooling' in cx.last_pool_err and name != 'dir_to_file':
+            cx.chk.violation('pool_stale_%s_warn' % name, "pool warns 'Duplicate pooling' although every recorded path is unique: %s" % ' / '.join(l for l in cx.last_pool_err.decode('latin1').split('\n') if 'Duplicate pooling' in l)[:300], recipe)
         verify_pool(cx, tree, 'stale_%s_third' % name, walked, [])
 
 
